@@ -50,6 +50,7 @@ reg("C13", "h_c13")
 reg("C03", "h_c03")
 reg("C03", "h_c03_deep", "asan")
 reg("C14", "h_c14", "asan")
+reg("C20", "h_c20")
 
 # quick / thorough wall-clock budgets per check (seconds); hitting one ends the run with exhaustive:false
 DEADLINE = {"quick": 150, "thorough": 1500}
@@ -230,6 +231,8 @@ def merge(stats):
             m[k] += s.get(k, 0)
         m["bfs_max_depth"] = max(m["bfs_max_depth"], s.get("bfs_max_depth", 0))
         m["configs_total"] = s["configs_total"]
+        if s.get("split_dfs"):
+            m.setdefault("_split_done", []).append(s["configs_done"])
         m["max_trace"] = max(m["max_trace"], s["max_trace"])
         m["deadline_hit"] = m["deadline_hit"] or s["deadline_hit"]
         for d in ("outcomes", "deviations", "clause_hits"):
@@ -237,6 +240,9 @@ def merge(stats):
                 m[d][k] = m[d].get(k, 0) + v
         m["violations"] += s["violations"]
         m["samples"] += s["samples"]
+    if m.get("_split_done"):
+        # every worker walks every configuration (its share of the subtrees): done = what all of them finished
+        m["configs_done"] = min(m.pop("_split_done"))
     return m
 
 
@@ -401,6 +407,53 @@ def check_c19(tier):
     return rc
 
 
+def native_build_tsan():
+    srcs = repo_all_inputs() + [os.path.join(VERIF, "tsan/h_c20_tsan.c")]
+    key = file_hash(srcs) + "-tsan"
+    out = os.path.join(BUILD, key)
+    exe = os.path.join(out, "h_c20_tsan")
+    if os.path.exists(exe):
+        return exe
+    if os.path.isdir(BUILD):
+        for d in os.listdir(BUILD):
+            if d.endswith("-tsan") and d != key:
+                shutil.rmtree(os.path.join(BUILD, d), ignore_errors=True)
+    os.makedirs(out, exist_ok=True)
+    inc = ["-I", os.path.join(REPO, "reproc/include"), "-I", os.path.join(REPO, "reproc/src")]
+    cmds, objs = [], []
+    for s in repo_sources():
+        o = os.path.join(out, "t_" + os.path.basename(s).replace(".c", ".o"))
+        objs.append(o)
+        cmds.append(["gcc"] + BASE_CFLAGS + ["-Wno-error", "-fsanitize=thread"] + inc + ["-c", s, "-o", o])
+    ho = os.path.join(out, "t_harness.o")
+    cmds.append(["gcc", "-std=gnu11", "-g", "-O1", "-fsanitize=thread"] + inc + ["-c", os.path.join(VERIF, "tsan/h_c20_tsan.c"), "-o", ho])
+    parallel(cmds)
+    sh(["gcc", "-fsanitize=thread", "-o", exe, ho] + objs + ["-lpthread"])
+    return exe
+
+
+def run_tsan_monitor(tier):
+    """Free-running ThreadSanitizer pass for C20: returns (info dict, violations list)."""
+    exe = native_build_tsan()
+    runs = 400 if tier == "thorough" else 60
+    env = dict(os.environ)
+    env["TSAN_OPTIONS"] = "halt_on_error=0 exitcode=66 report_signal_unsafe=0"
+    t0 = time.time()
+    p = subprocess.run([exe, str(runs)], env=env, stdout=subprocess.PIPE, stderr=subprocess.PIPE, timeout=1200)
+    err = p.stderr.decode(errors="replace")
+    reports = err.count("WARNING: ThreadSanitizer")
+    info = {"runs": runs, "tsan_reports": reports, "exit": p.returncode, "wall_s": round(time.time() - t0, 2)}
+    viols = []
+    if reports or p.returncode == 66:
+        first = err[err.find("WARNING: ThreadSanitizer"):][:900].replace("\n", " | ")
+        kind = "data-race" if "data race" in err else "other"
+        viols.append({"clause": "tsan-" + kind, "key": "h_c20_tsan|clause=tsan-%s" % kind, "msg": "ThreadSanitizer reported %d problem(s) in %d free runs: %s" % (reports, runs, first)})
+    elif p.returncode != 0:
+        viols.append({"clause": "free-run-functional", "key": "h_c20_tsan|clause=free-run-functional",
+                      "msg": "free-running threads: wrong bytes or status (%s %s)" % (p.stdout.decode(errors="replace").strip(), err[-300:].replace("\n", " | "))})
+    return info, viols
+
+
 def make_scratch_dir():
     base = "/dev/shm" if os.path.isdir("/dev/shm") and os.access("/dev/shm", os.W_OK) else BUILD
     sc = os.path.join(base, "reproc-verif-n%d" % os.getpid())
@@ -448,6 +501,15 @@ def check(prop, tier):
                 seen_known[v["key"]] = v
             else:
                 new_viol.append((harness, v))
+    tsan_info = None
+    if prop == "C20":
+        tsan_info, tv = run_tsan_monitor(tier)
+        for v in tv:
+            vv = {"prop": "C20", "clause": v["clause"], "key": v["key"], "msg": v["msg"], "cfg": -1, "choices": [], "log": "re-run: run.py check C20", "count": 1, "confirmed": 1}
+            if v["key"] in known_keys:
+                seen_known[v["key"]] = vv
+            else:
+                new_viol.append(("h_c20_tsan", vv))
     # merge identical keys across workers
     uniq = {}
     for harness, v in new_viol:
@@ -489,6 +551,7 @@ def check(prop, tier):
             "unknown_symbols": unknown_syms, "other_clauses_failed": other,
             "known_findings_seen": sorted(seen_known.keys()),
             "worker_messages": errs_all[:10],
+            "tsan_free_running_monitor": tsan_info,
             "samples": samples[:4],
         },
         "assumptions": [
@@ -551,6 +614,7 @@ def main():
             build(v)
         native_build_c18()
         native_build_c19()
+        native_build_tsan()
         print("setup ok")
         return 0
     if cmd == "list":
